@@ -151,7 +151,8 @@ def main():
     prog = load_program()
     chk.repo_hash = prog.repo_hash
     chk.assumptions += COMMON_ASSUMPTIONS
-    for T in tr.all_transitions():
+    import checks.htransitions as ht
+    for T in tr.all_transitions() + [ht.PullH(), ht.AckH()]:
         if T.kind not in ('ack', 'nack', 'delay', 'seek', 'pull', 'delete-sub', 'publish'):
             continue
         fs = [O.c02_independence]
